@@ -37,6 +37,9 @@ Definition enq_ok (x : op) (r : res) : bool :=
   | _, _ => false
   end.
 
+Lemma enq_ok_res_ok x r : enq_ok x r = true -> res_ok r = true.
+Proof. destruct x, r; simpl; intros H; try discriminate; try reflexivity; destruct es; discriminate. Qed.
+
 Inductive change (c : cfg) (x : op) (r : res) (m m' : msg) : Prop :=
 | ch_same : m' = m -> change c x r m m'
 | ch_expire : releases x = true -> expired (op_now x) m = true ->
@@ -75,7 +78,7 @@ Definition per_message (c : cfg) (x : op) (r : res) (l : list msg) (pm : msg -> 
 
 Definition news_ok (x : op) (o : oracle) (r : res) (news : list msg) : Prop :=
   news = [] \/
-  (res_ok r = true /\ exists ies, assign_ids (enq_list x) (o_genids o) = Some ies /\
+  (enq_ok x r = true /\ exists ies, assign_ids (enq_list x) (o_genids o) = Some ies /\
                                   news = map (fun p => mk_msg (op_now x) (fst p) (snd p)) ies).
 
 Definition step_spec (c : cfg) (x : op) (o : oracle) (r : res) (l l' : list msg) : Prop :=
@@ -702,7 +705,7 @@ Proof.
         assert (Hne : vs <> []) by (intros N; subst vs; destruct Ev).
         destruct (Hdrop Hne). apply rm_evict; auto.
       + rewrite <- Hnow in R. apply rm_prune; assumption.
-    - right. split; [exact Hok|]. exists ies. rewrite Hes, Hnow. split; [exact EA | reflexivity]. }
+    - right. split; [exact Heok|]. exists ies. rewrite Hes, Hnow. split; [exact EA | reflexivity]. }
   destruct fl.
   - (* memory *)
     destruct (mem_plan c (Z.of_nat (length ies)) s1 l1) as [victims|] eqn:EP; [|inversion H; subst; apply Pruned].
